@@ -2,6 +2,7 @@
   C05 — filterset expressions denote the documented sets under the documented precedence.
   Property theorems only.
 -/
+import NextestModel.Lemmas.Reach
 import NextestModel.Model.Syntax
 import NextestModel.Gen.Tables
 namespace NextestModel.C05
@@ -280,6 +281,60 @@ theorem or_is_left_associative {op a b} (h : IsOr (.union op a b)) : ∀ o x y, 
     | basic h => cases h
   | union _ _ hb => cases hb with
     | basic hh => cases hh
+
+/-! ## `deps()` / `rdeps()`: reflexive-transitive reachability -/
+
+section reach
+open NextestModel.ReachLemmas
+
+/-- **`depends_on` decides exactly the reflexive-transitive closure of the dependency edges** — soundness and COMPLETENESS of the
+    fuelled search (fuel = number of packages), for every graph whose edges point to packages of the graph: cycles, diamonds,
+    paths through non-workspace packages, any size.  Completeness is the part testing cannot settle: a walk is shortened to one
+    without repeated packages, and such a walk has at most as many vertices as there are packages. -/
+theorem depends_on_is_reachability (g : Graph) (hv : Valid g) (a b : Nat) (ha : a < g.names.length) :
+    g.dependsOn a b = true ↔ Reach g a b :=
+  ⟨reachF_sound g _ a b, reachF_complete g hv a b ha⟩
+
+private theorem wsIds_lt (g : Graph) (i : Nat) (h : i ∈ g.wsIds) : i < g.names.length := by
+  simp only [Graph.wsIds, List.mem_filter, List.mem_range] at h; exact h.1
+
+/-- **`deps(m)` is the set of workspace packages reachable from a workspace package matching `m`** (itself included; paths may
+    leave the workspace), and **`rdeps(m)`** the set of workspace packages from which one is reachable -/
+theorem deps_rdeps_membership (g : Graph) (hv : Valid g) (ro : RegexOracle) (m : Matcher) (j : Nat) :
+    (j ∈ g.depsOf ro m ↔ j ∈ g.wsIds ∧ ∃ i ∈ g.matching ro m, Reach g i j) ∧
+    (j ∈ g.rdepsOf ro m ↔ j ∈ g.wsIds ∧ ∃ i ∈ g.matching ro m, Reach g j i) := by
+  have hm : ∀ i ∈ g.matching ro m, i < g.names.length := by
+    intro i hi
+    simp only [Graph.matching, List.mem_filter] at hi
+    exact wsIds_lt g i hi.1
+  constructor
+  · simp only [Graph.depsOf, List.mem_filter, List.any_eq_true]
+    constructor
+    · rintro ⟨hj, i, hi, hd⟩
+      exact ⟨hj, i, hi, (depends_on_is_reachability g hv i j (hm i hi)).mp hd⟩
+    · rintro ⟨hj, i, hi, hr⟩
+      exact ⟨hj, i, hi, (depends_on_is_reachability g hv i j (hm i hi)).mpr hr⟩
+  · simp only [Graph.rdepsOf, List.mem_filter, List.any_eq_true]
+    constructor
+    · rintro ⟨hj, i, hi, hd⟩
+      exact ⟨hj, i, hi, (depends_on_is_reachability g hv j i (wsIds_lt g j hj)).mp hd⟩
+    · rintro ⟨hj, i, hi, hr⟩
+      exact ⟨hj, i, hi, (depends_on_is_reachability g hv j i (wsIds_lt g j hj)).mpr hr⟩
+
+-- non-vacuity: a cycle 0 → 1 → 2 → 0 with a tail 2 → 3 through a non-workspace package 2
+example : let g : Graph := { names := [['a'], ['b'], ['c'], ['d']], workspace := [true, true, false, true], edges := [[1], [2], [0, 3], []] }
+    Valid g ∧ g.dependsOn 0 3 = true ∧ g.dependsOn 3 0 = false := by
+  refine ⟨?_, by decide, by decide⟩
+  intro i c hc
+  simp only [Graph.succ] at hc
+  match i with
+  | 0 => simp at hc; subst hc; decide
+  | 1 => simp at hc; subst hc; decide
+  | 2 => simp at hc; rcases hc with rfl | rfl <;> decide
+  | 3 => simp at hc
+  | n + 4 => simp at hc
+
+end reach
 
 /-! ## Tie to the source: predicates and their documented default matchers -/
 
